@@ -989,3 +989,251 @@ func runExitDefer(c *Ctx, r *Reporter) {
 		r.Undecided("no call that may reach os.Exit found in the command package")
 	}
 }
+
+// R-EQDEEP: structure of deep equality on arrays and of equality on basic values.
+//
+// `==` on arrays is element-wise: arrays of different length are unequal; element i of one array is compared with
+// element i of the other (the same index value feeds both accesses); the first unequal pair answers false; true is
+// answered only behind the loop. On basic values equality is the Go `==` of the two payloads, and an any is equal
+// only if both its type and its value are.
+var ruleEqDeep = &Rule{
+	ID: "R-EQDEEP",
+	Doc: "array equality compares the lengths (false when different), then element i with element i for every i (false on the first difference) and answers true only behind the loop; " +
+		"equality of num/string/bool is == of the payloads; equality of an any needs equal type and equal value",
+	Floor: 8,
+	Run:   runEqDeep,
+}
+
+func runEqDeep(c *Ctx, r *Reporter) {
+	p, err := c.Default()
+	if err != nil {
+		r.Undecided("%v", err)
+		return
+	}
+	type site struct{ rel, fn string }
+	for _, s := range []site{{evaluatorRel, "(*arrayVal).Equals"}, {bytecodeRel, "(arrayVal).Equals"}} {
+		pkg := p.Pkg(s.rel)
+		fd := FindFunc(pkg, s.fn)
+		if fd == nil {
+			r.Undecided("%s.%s not found", s.rel, s.fn)
+			continue
+		}
+		sf := p.SSAFunc(fd.Obj)
+		q := fd.QName()
+		pos := p.Rel(fd.Decl.Pos())
+		// element comparison inside the loop
+		var elemEq *ssa.Call
+		lenCmp := false
+		for _, b := range sf.Blocks {
+			for _, ins := range b.Instrs {
+				switch x := ins.(type) {
+				case *ssa.Call:
+					if x.Call.IsInvoke() && x.Call.Method.Name() == "Equals" && inCycle(b) {
+						elemEq = x
+					}
+				case *ssa.BinOp:
+					if x.Op == token.NEQ || x.Op == token.EQL {
+						l1, ok1 := x.X.(*ssa.Call)
+						l2, ok2 := x.Y.(*ssa.Call)
+						if ok1 && ok2 && isLenCall(l1) && isLenCall(l2) {
+							for _, ref := range *x.Referrers() {
+								if ifi, ok := ref.(*ssa.If); ok {
+									edge := 0
+									if x.Op == token.EQL {
+										edge = 1
+									}
+									if onlyConstReturns(ifi.Block().Succs[edge], "false", map[*ssa.BasicBlock]bool{}) {
+										lenCmp = true
+									}
+								}
+							}
+						}
+					}
+				}
+			}
+		}
+		r.Check(lenCmp, q+"#lengths", pos, "arrays of different length are unequal", "array equality does not answer false for arrays of different length: a prefix would equal the longer array (or the index runs out of range)")
+		if elemEq == nil {
+			r.Viol(q+"#elementwise", pos, "array equality has no loop that compares the elements with Equals")
+			continue
+		}
+		idxOf := func(v ssa.Value) (ssa.Value, ssa.Value) { // index value and slice of an element access
+			for i := 0; i < 4; i++ {
+				switch x := v.(type) {
+				case *ssa.UnOp:
+					v = x.X
+					continue
+				case *ssa.IndexAddr:
+					return x.Index, x.X
+				case *ssa.Index:
+					return x.Index, x.X
+				case *ssa.Extract: // range over a slice: element of the next() tuple — the index is the key extract
+					if nx, ok := x.Tuple.(*ssa.Next); ok {
+						_ = nx
+					}
+				}
+				break
+			}
+			return nil, nil
+		}
+		i1, s1 := idxOf(elemEq.Call.Value)
+		i2, s2 := idxOf(elemEq.Call.Args[0])
+		sameIdx := i1 != nil && i1 == i2 && s1 != nil && s2 != nil && s1 != s2
+		r.Check(sameIdx, q+"#same-index", p.Rel(instrPos(elemEq)), "element i is compared with element i of the other array", "the two elements handed to Equals are not taken from the two arrays at the same index: the comparison pairs the wrong elements")
+		// unequal pair answers false
+		falseOnDiff := false
+		for _, ref := range *elemEq.Referrers() {
+			switch x := ref.(type) {
+			case *ssa.If:
+				if onlyConstReturns(x.Block().Succs[1], "false", map[*ssa.BasicBlock]bool{}) {
+					falseOnDiff = true
+				}
+			case *ssa.UnOp:
+				if x.Op == token.NOT {
+					for _, r2 := range *x.Referrers() {
+						if ifi, ok := r2.(*ssa.If); ok && onlyConstReturns(ifi.Block().Succs[0], "false", map[*ssa.BasicBlock]bool{}) {
+							falseOnDiff = true
+						}
+					}
+				}
+			}
+		}
+		r.Check(falseOnDiff, q+"#first-difference", p.Rel(instrPos(elemEq)), "the first unequal pair answers false", "an unequal pair of elements does not answer false at once: a later equal pair can make different arrays compare equal")
+		// true only behind the loop
+		hdr := loopHeaderOf(elemEq.Block())
+		trueOK := hdr != nil
+		nTrue := 0
+		for _, ret := range returnsOf(sf) {
+			for _, rv := range resultValues(ret, 0) {
+				k, ok := rv.(*ssa.Const)
+				if !ok {
+					trueOK = false // a computed answer
+					continue
+				}
+				if k.Value != nil && constant.BoolVal(k.Value) {
+					nTrue++
+					if hdr == nil || !hdr.Dominates(ret.Block()) || reachesBlock(ret.Block(), hdr) {
+						trueOK = false
+					}
+				}
+			}
+		}
+		r.Check(trueOK && nTrue > 0, q+"#true-behind-loop", pos, "true is answered only after every pair was compared", "array equality answers true before every pair of elements was compared (inside the loop or on a path around it)")
+	}
+	// basic values and any
+	for _, s := range []struct{ rel, fn, want string }{
+		{evaluatorRel, "(*numVal).Equals", "(L == R)"}, {evaluatorRel, "(*stringVal).Equals", "(L == R)"}, {evaluatorRel, "(*boolVal).Equals", "(L == R)"},
+		{bytecodeRel, "(numVal).Equals", "(L == R)"}, {bytecodeRel, "(stringVal).Equals", "(L == R)"}, {bytecodeRel, "(boolVal).Equals", "(L == R)"},
+	} {
+		pkg := p.Pkg(s.rel)
+		fd := FindFunc(pkg, s.fn)
+		if fd == nil {
+			r.Undecided("%s.%s not found", s.rel, s.fn)
+			continue
+		}
+		sf := p.SSAFunc(fd.Obj)
+		tc := &opTermCtx{leaf: func(v ssa.Value) string {
+			// payload of the receiver / of the asserted argument
+			for i := 0; i < 4; i++ {
+				switch x := v.(type) {
+				case *ssa.UnOp:
+					if x.Op == token.MUL {
+						v = x.X
+						continue
+					}
+				case *ssa.FieldAddr:
+					v = x.X
+					continue
+				case *ssa.Field:
+					v = x.X
+					continue
+				case *ssa.Extract:
+					if ta, ok := x.Tuple.(*ssa.TypeAssert); ok && x.Index == 0 && len(sf.Params) == 2 && ta.X == ssa.Value(sf.Params[1]) {
+						return "R"
+					}
+				case *ssa.TypeAssert:
+					if len(sf.Params) == 2 && x.X == ssa.Value(sf.Params[1]) {
+						return "R"
+					}
+				case *ssa.Parameter:
+					if len(sf.Params) > 0 && x == sf.Params[0] {
+						return "L"
+					}
+				}
+				break
+			}
+			return ""
+		}}
+		got := ""
+		n := 0
+		for _, ret := range returnsOf(sf) {
+			for _, rv := range resultValues(ret, 0) {
+				n++
+				t := tc.term(rv, 6)
+				if t == "(R == L)" {
+					t = "(L == R)"
+				}
+				if got == "" || t != s.want {
+					got = t
+				}
+			}
+		}
+		r.Check(n > 0 && got == s.want, fd.QName()+"#payload-equality", p.Rel(fd.Decl.Pos()), "returns "+s.want+" of the two payloads", fmt.Sprintf("%s returns %s, equality of basic values is %s of the receiver's and the argument's payload", s.fn, got, s.want))
+	}
+	if fd := FindFunc(p.Pkg(evaluatorRel), "(*anyVal).Equals"); fd != nil {
+		sf := p.SSAFunc(fd.Obj)
+		// both a.T.Equals(a2.T) and a.V.Equals(a2.V) are called, and the answer is their conjunction
+		fields := map[string]bool{}
+		for _, b := range sf.Blocks {
+			for _, ins := range b.Instrs {
+				call, ok := ins.(*ssa.Call)
+				if !ok || len(call.Call.Args) == 0 {
+					continue
+				}
+				name := ""
+				if call.Call.IsInvoke() {
+					name = call.Call.Method.Name()
+				} else if sc := call.Call.StaticCallee(); sc != nil {
+					name = sc.Name()
+				}
+				if name != "Equals" {
+					continue
+				}
+				recv := call.Call.Value
+				if !call.Call.IsInvoke() {
+					recv = call.Call.Args[0]
+				}
+				if u, ok := recv.(*ssa.UnOp); ok {
+					if fa, ok := u.X.(*ssa.FieldAddr); ok {
+						_, f := fieldAddrInfo(fa)
+						fields[f] = true
+					}
+				}
+			}
+		}
+		conj := false
+		for _, ret := range returnsOf(sf) {
+			for _, rv := range resultValues(ret, 0) {
+				if phi, ok := rv.(*ssa.Phi); ok {
+					tc := &opTermCtx{leaf: func(v ssa.Value) string {
+						if _, ok := v.(*ssa.Call); ok {
+							return "E"
+						}
+						return ""
+					}}
+					if tc.shortCircuit(phi, 4) == "(E && E)" {
+						conj = true
+					}
+				}
+			}
+		}
+		r.Check(fields["T"] && fields["V"] && conj, fd.QName()+"#type-and-value", p.Rel(fd.Decl.Pos()), "an any equals another only if type and value are equal", "(*anyVal).Equals must answer a.T.Equals(a2.T) && a.V.Equals(a2.V): without the type (or the value) part, values of different types held in an any compare equal")
+	} else {
+		r.Undecided("(*anyVal).Equals not found")
+	}
+}
+
+func isLenCall(c *ssa.Call) bool {
+	bi, ok := c.Call.Value.(*ssa.Builtin)
+	return ok && bi.Name() == "len"
+}
